@@ -2,6 +2,7 @@
 import PgModel.Json
 import PgModel.C05Codec
 import PgModel.C05Store
+import PgModel.C05Typed
 import PgGen.C05Sig
 open Pg Pg.C05
 
@@ -195,6 +196,39 @@ def handle (j : J) : J :=
       let (_, outs) := run c [] ops
       .obj [("outs", .arr (outs.map outToJ))]
     | _, _ => bad "store"
+  | some "typed_dict" =>
+    match (j.getArr? "fields").bind (·.mapM fieldOfJ),
+          (j.getArr? "items").bind (·.mapM fun
+            | J.arr [.str k, v] => do pure (ofS k, (← treeOfJ v))
+            | _ => none),
+          (j.getArr? "writes").bind (·.mapM fun
+            | J.arr [.str k, v] => do pure (ofS k, (← treeOfJ v))
+            | _ => none),
+          j.getBool? "ap" with
+    | some fields, some items, some writes, some ap =>
+      let d : TypedDict := ⟨fields, items⟩
+      let env : ClassEnv := ⟨[]⟩
+      .obj [("json", jvToJ (d.toJson env)),
+            ("rt", resToJ (fromJson env ap (d.toJson env))),
+            ("writes", .arr (writes.map fun (k, v) =>
+              match d.set k v with
+              | .ok _ => J.str "ok"
+              | .error e => J.str (errName e)))]
+    | _, _, _, _ => bad "typed_dict"
+  | some "typed_list" =>
+    match (j.get? "elem").bind kindOfJ, (j.getArr? "items").bind (·.mapM treeOfJ),
+          (j.getArr? "appends").bind (·.mapM treeOfJ) with
+    | some elem, some items, some appends =>
+      let maxSize := (j.get? "max").bind J.asNat?
+      let l : TypedList := ⟨elem, maxSize, items⟩
+      let env : ClassEnv := ⟨[]⟩
+      .obj [("json", jvToJ (l.toJson env)),
+            ("rt", resToJ (fromJson env false (l.toJson env))),
+            ("writes", .arr (appends.map fun v =>
+              match l.append v with
+              | .ok _ => J.str "ok"
+              | .error e => J.str (errName e)))]
+    | _, _, _ => bad "typed_list"
   | some "sig" =>
     .obj [("rows", .arr (sigTable.map fun r =>
       .obj [("cls", .str r.cls),
